@@ -6,7 +6,79 @@ reported for the other property only). Each theorem below has the SAME statement
 theorem it cites and is proved by it.
 -/
 import Uniflow.Props.C13Tie
+import Uniflow.Generated.RuntimeFacts
 
 theorem C09.stream_emit_as_modelled : type_of% C13.stream_emit_as_modelled := C13.stream_emit_as_modelled
 theorem C09.stream_outline_as_modelled : type_of% C13.stream_outline_as_modelled := C13.stream_outline_as_modelled
 theorem C09.emit_loop_as_modelled : type_of% C13.emit_loop_as_modelled := C13.emit_loop_as_modelled
+
+/-! ## `Reconcile` and the symbol table: everything goes through `Load` / `reload`, under `loadMu`
+
+Generated/RuntimeFacts (extract/runtime.go, regenerated from pkg/runtime/runtime.go on every run)
+lists, for every method of `*Runtime`, the calls made through the receiver (`r.M(…)`, `r.F.M(…)`,
+function literals included) and every other use of a receiver field. `C09.converges_concurrent`
+assumes that an event – of whatever kind – is handled only when no load is in flight; these
+theorems are the source facts behind that assumption. -/
+
+open Uniflow.Generated.RuntimeFacts
+
+/-- The calls method `fn` makes through the receiver: (field – "" for the runtime itself –, method). -/
+def C09.callsIn (fn : String) : List (String × String) := (calls.filter (fun c => c.1 == fn)).map (·.2)
+
+/-- `Reconcile` never touches the symbol table itself: through its receiver it calls only the
+stream-field lock, `Load` and `reload`; the only fields it reads are the two streams. -/
+theorem C09.reconcile_reaches_table_only_through_load :
+    C09.callsIn "Reconcile" = [("mu", "RLock"), ("mu", "RUnlock"), ("", "Load"), ("", "reload")] ∧
+    fieldUses.filter (fun u => u.1 == "Reconcile") = [("Reconcile", "specStream"), ("Reconcile", "valueStream")] := by
+  decide
+
+/-- Both things `Reconcile` does with an event start by taking `loadMu` and release it on return;
+`reload` only *reads* the table (`Keys`, `Lookup`) before it calls `load`. -/
+theorem C09.event_handlers_run_under_loadMu :
+    C09.callsIn "Load" = [("loadMu", "Lock"), ("loadMu", "Unlock"), ("", "load")] ∧
+    C09.callsIn "reload" = [("loadMu", "Lock"), ("loadMu", "Unlock"), ("valueStore", "Find"),
+      ("symbolTable", "Keys"), ("symbolTable", "Lookup"), ("", "load")] ∧
+    outline_Runtime_Load = ["r.loadMu.Lock()", "defer r.loadMu.Unlock()", "return r.load(ctx, filter)"] ∧
+    outline_Runtime_reload.take 2 = ["r.loadMu.Lock()", "defer r.loadMu.Unlock()"] := by
+  decide
+
+/-- The table is written (`Insert`, `Free`, `Close`) only by `load` and by `Close`; `load` is
+called only by `Load` and `reload`; no method hands the table or `loadMu` to anything else. -/
+theorem C09.table_written_only_by_load_and_close :
+    (calls.filter (fun c => c.2.1 == "symbolTable" && (c.2.2 == "Insert" || c.2.2 == "Free" || c.2.2 == "Close"))).map (·.1)
+      = ["load", "load", "Close"] ∧
+    (calls.filter (fun c => c.2.1 == "" && c.2.2 == "load")).map (·.1) = ["Load", "reload"] ∧
+    fieldUses.all (fun u => u.2 != "symbolTable" && u.2 != "loadMu") = true := by
+  decide
+
+/-- The two consumer loops as the model's `consumeSpec` / `consumeVal` (`beginSpec` / `beginVal`)
+have them: every spec event, of every kind, is turned into `Load({id})`; every value event into
+`reload(id)`; nothing else happens per event. -/
+theorem C09.reconcile_outline_as_modelled :
+    outline_Runtime_Reconcile = [
+      "r.mu.RLock()",
+      "specStream := r.specStream",
+      "valueStream := r.valueStream",
+      "r.mu.RUnlock()",
+      "if specStream == nil || valueStream == nil",
+      "  return nil",
+      "g, _ := errgroup.WithContext(ctx)",
+      "g.Go(func#1)",
+      "func#1() error",
+      "  for specStream.Next(ctx)",
+      "    var event store.Event",
+      "    if err := specStream.Decode(&event); err != nil",
+      "      return err",
+      "    _ = r.Load(ctx, map[string]any{spec.KeyID: event.ID})",
+      "  return nil",
+      "g.Go(func#2)",
+      "func#2() error",
+      "  for valueStream.Next(ctx)",
+      "    var event store.Event",
+      "    if err := valueStream.Decode(&event); err != nil",
+      "      return err",
+      "    if err := r.reload(ctx, event.ID); err != nil",
+      "      return err",
+      "  return nil",
+      "return g.Wait()"] := by
+  decide
